@@ -852,7 +852,11 @@ LEVEL_TEXT = ("Proved in Lean 4 over an arbitrary field, about definitions REGEN
               "<-> matrix <-> axis-angle <-> 24 Euler conventions incl. gimbal lock and 180 degrees) are validated numerically against "
               "long double references only.")
 LEVEL_NOTE = ("Trusted: Lean kernel; the expression translator tools/props/c20_translate.py; harness/c20.cpp (prime-field scalar class, long "
-              "double references). NOT theorems (numeric validation by the correspondence harness only, because Lean's kernel has no IEEE "
+              "double references). Numeric bounds used: square systems |x^-x| <= c eps cond(A) |x| (backward stability of elimination with partial pivoting); "
+              "over-determined systems, solved through the normal equations G = AtA: |x^-x| <= c eps (cond(G)|x| + |G^-1| | |A|^T|b| |), "
+              "the standard perturbation bound of the normal-equations method (the second term is the rounding error of forming Atb; "
+              "without it a right-hand side nearly orthogonal to the columns of A raised a false alarm, corpus/C20/lstsq_orthogonal_rhs.ops). "
+              "NOT theorems (numeric validation by the correspondence harness only, because Lean's kernel has no IEEE "
               "floats): all float/double residual bounds; "
               "rotation_matrix_full (matrix(rotation M) = M for EVERY proper rotation matrix M) is only stated: it needs surjectivity of "
               "q -> matrix q onto SO(3); proved is rotation_matrix_partial (M in the image). The axis-angle and Euler theorems assume "
